@@ -346,13 +346,24 @@ class Formatter:
             return f"{key.upper()}({params})"
 
     def _regexp(self, value, prec):
-        return f"{self.dispatch(value[0])} REGEXP {self.dispatch(value[1])}"
+        return self._regexp_op("REGEXP", value, prec)
 
     def _not_regexp(self, value, prec):
-        return f"{self.dispatch(value[0])} NOT REGEXP {self.dispatch(value[1])}"
+        return self._regexp_op("NOT REGEXP", value, prec)
+
+    def _regexp_op(self, sql_op, value, prec):
+        # THE PARSER GIVES REGEXP ITS OWN, LOOSEST, LEVEL: ISOLATE THE OPERANDS AND THE EXPRESSION ITSELF
+        sql = f"{self.dispatch(value[0], precedence['literal'])} {sql_op} {self.dispatch(value[1], precedence['literal'])}"
+        if prec < precedence["list"]:
+            return f"({sql})"
+        return sql
 
     def _binary_not(self, value, prec):
-        return "~{0}".format(self.dispatch(value))
+        # ~ IS THE TIGHTEST OPERATOR IN SQL, BUT NOT FOR THE PARSER: ISOLATE THE OPERAND AND THE EXPRESSION ITSELF
+        sql = "~{0}".format(self.dispatch(value, precedence["literal"]))
+        if prec < precedence["and"]:
+            return f"({sql})"
+        return sql
 
     def _not(self, value, prec):
         op_prec = precedence["not"]
